@@ -21,8 +21,10 @@ import (
 	"syscall"
 	"time"
 
+	"github.com/caddyserver/certmagic"
 	"github.com/tmpim/casket"
 	"github.com/tmpim/casket/caskethttp/httpserver"
+	"github.com/tmpim/casket/caskettls"
 
 	"verif/sim"
 )
@@ -57,6 +59,7 @@ type lfRig struct {
 	tmp           string
 	busyPort      int
 	busy          net.Listener
+	cluster       bool           // the environment names the storage plugin simcluster
 	quic          bool           // the process runs with -quic: every server also opens a UDP socket on its port
 	busyUDP       net.PacketConn // a UDP port somebody else holds while the TCP port of the same number is free
 	busyUDPPort   int
@@ -77,7 +80,20 @@ type lfRig struct {
 
 var lf *lfRig
 
+// the storage plugin the environment may name (CASKET_CLUSTERING=simcluster): its backend is
+// unreachable while lfClusterDown is set.
+var (
+	lfClusterDown    bool
+	lfClusterStorage = &certmagic.FileStorage{Path: "/nonexistent/simcluster"}
+)
+
 func init() {
+	caskettls.RegisterClusterPlugin("simcluster", func() (certmagic.Storage, error) {
+		if lfClusterDown {
+			return nil, fmt.Errorf("storage backend unreachable")
+		}
+		return lfClusterStorage, nil
+	})
 	casket.RegisterCasketfileLoader("lfloader", casket.LoaderFunc(func(serverType string) (casket.Input, error) {
 		if serverType != "http" || lf == nil || lf.pending == nil {
 			return nil, nil
@@ -92,7 +108,7 @@ func init() {
 
 // seeds below lfDirected are the systematic enumeration
 // (running or not) x (3 ways of loading) x (every failure kind)
-const lfDirected = 6 * 36
+const lfDirected = 6 * 37
 
 var lfFailKinds = []string{
 	"syntax", "unknown-directive",
@@ -106,6 +122,7 @@ var lfFailKinds = []string{
 	"setup-panic",     // (reloads only: a panic during Start is the end of the process)
 	"import-cycle",    // an imported file imports itself
 	"args:proxy-health-interval",
+	"cluster-storage-unreachable", // (first load of the process only: the storage plugin is set up once)
 }
 
 func sha(pass string) string {
@@ -594,6 +611,17 @@ func runLoadfail(c *sim.Ctl) {
 		if fail == "udp-port-in-use" && !r.quic {
 			fail = "port-in-use"
 		}
+		if fail == "cluster-storage-unreachable" {
+			if i > 0 || startRunning {
+				fail = "args:header"
+			} else {
+				// the environment names a storage plugin whose backend cannot be reached right now
+				os.Setenv("CASKET_CLUSTERING", "simcluster")
+				lfClusterDown = true
+				r.cluster = true
+				c.Probe("storage-plugin-named-by-the-environment")
+			}
+		}
 		if fail == "loader-error" && (m != "start" && m != "sigusr1") {
 			fail = "missing:import" // the API takes the configuration text itself: no loader involved
 		}
@@ -618,6 +646,7 @@ func runLoadfail(c *sim.Ctl) {
 				r.occupyPort()
 			}
 		}
+		lfClusterDown = false // (the backend is reachable from here on)
 	}
 	// ---- finally a valid configuration must load and behave as specified ----
 	if !r.aborted {
@@ -719,6 +748,8 @@ func (r *lfRig) repair(cfg *lfCfg) bool {
 		os.WriteFile(none+".conf", []byte("header /imported X-Imported yes\n"), 0644)
 	case "startup-callback:log":
 		os.MkdirAll(filepath.Join(none, "sub"), 0755)
+	case "cluster-storage-unreachable":
+		lfClusterDown = false
 	default:
 		return false
 	}
@@ -831,6 +862,9 @@ func (r *lfRig) attempt(a lfAttempt) {
 			what = "configuration (" + cfg.fail + ", cause repaired meanwhile)"
 		}
 		c.Violate("C08/valid-load-failed", a.method+"/after:"+r.prevFails(), "%s of %s %s failed: %v", a.method, what, cfg.label, err)
+	}
+	if err == nil && r.cluster && certmagic.Default.Storage != certmagic.Storage(lfClusterStorage) {
+		c.Violate("C08/storage-plugin-bypassed", a.method+"/after:"+r.prevFails(), "%s of %s succeeded with the environment naming the storage plugin simcluster, but certificates and locks go to %T %v: not the plugin's storage (a fresh process would have constructed it)", a.method, cfg.label, certmagic.Default.Storage, certmagic.Default.Storage)
 	}
 	if err == nil && a.method != "validate" {
 		r.inst, r.running = newInst, cfg
